@@ -154,6 +154,34 @@ func (e *Env) term(x *Sx) string {
 			e.errf("byteat of a non-scalar slice")
 		}
 		return fmt.Sprintf("(select %s %s)", c.Leaves[0], addTerm(sl.Off, e.term(x.List[2])))
+	case "nosharing":
+		// (nosharing A B): no backing array reachable from value A is reachable from value B
+		// (decided structurally: backing arrays have identities in the engine). Abstract values share nothing.
+		a, b := e.val(x.List[1]), e.val(x.List[2])
+		as, bs := map[*Arr]bool{}, map[*Arr]bool{}
+		collectArrs(e.s, e.cur, a, as, 0)
+		collectArrs(e.s, e.cur, b, bs, 0)
+		for k := range as {
+			if bs[k] {
+				return "false"
+			}
+		}
+		return "true"
+	case "natval":
+		// value of a natural number stored in a word slice (big.Int.abs): a function of the content window
+		v := e.val(x.List[1])
+		sl, ok := v.(Slice)
+		if !ok {
+			e.errf("natval of %T", v)
+		}
+		if sl.Arr == nil {
+			return "0"
+		}
+		c := e.s.arrContent(e.cur, sl.Arr)
+		if len(c.Leaves) != 1 {
+			e.errf("natval of a non-scalar slice")
+		}
+		return ite(eq(sl.Len, "0"), "0", fmt.Sprintf("(natval %s %s %s)", c.Leaves[0], sl.Off, sl.Len))
 	case "bcode":
 		v := e.val(x.List[1])
 		if s, ok := v.(Slice); ok {
@@ -330,6 +358,30 @@ func (e *Env) term(x *Sx) string {
 		return e.s.wfTerm(st, t, mkKey(ks))
 	case "key":
 		return e.keyTerm(x)
+	}
+	if vw, ok := e.s.Spec.Views[h]; ok && len(x.List) == 2 {
+		av := e.val(x.List[1])
+		if _, isSc := av.(Sc); !isSc {
+			n := *e
+			n.vars = map[string]Val{}
+			n.typs = map[string]types.Type{}
+			for k, v := range e.vars {
+				n.vars[k] = v
+			}
+			for k, v := range e.typs {
+				n.typs[k] = v
+			}
+			n.vars[vw.Param] = av
+			vt := e.s.Prog.LookupType(vw.Type)
+			if vt == nil {
+				e.errf("view %s: type %s not loaded", h, vw.Type)
+			}
+			if _, isPtr := av.(Ptr); isPtr {
+				vt = types.NewPointer(vt)
+			}
+			n.typs[vw.Param] = vt
+			return n.term(vw.Body)
+		}
 	}
 	// generic application: evaluate arguments
 	parts := []string{h}
@@ -632,4 +684,31 @@ func (sp *Spec) compsOfTable(name string) []string {
 	}
 	sort.Strings(out)
 	return out
+}
+
+func collectArrs(s *Session, st *State, v Val, out map[*Arr]bool, depth int) {
+	if depth > 6 {
+		return
+	}
+	switch a := v.(type) {
+	case Slice:
+		if a.Arr != nil {
+			out[a.Arr] = true
+		}
+	case Rec:
+		for _, f := range a.F {
+			collectArrs(s, st, f, out, depth+1)
+		}
+	case ArrayV:
+		out[a.Arr] = true
+	case Ptr:
+		if a.Arr != nil {
+			out[a.Arr] = true
+		}
+		if a.Loc != nil {
+			if c, ok := st.mem[a.Loc]; ok {
+				collectArrs(s, st, c, out, depth+1)
+			}
+		}
+	}
 }
